@@ -17,7 +17,7 @@ Print Assumptions C11_errors_accumulate.
    at the position of its match with file, line:col (offset) and rule prefix, parsing
    continues, value and errors can be returned together *)
 Theorem C11_errors_are_ref_errors : forall c,
-  has_state (cT c) = true -> o_memoize (cO c) = false -> G_wf c -> stale_ok c -> t_leftrec (cT c) = false ->
+  state_ok c -> o_memoize (cO c) = false -> G_wf c -> stale_ok c -> t_leftrec (cT c) = false ->
   forall fuel, obs_equiv (parse c fuel) (rparse c fuel).
 Proof. exact parse_refines_rparse. Qed.
 Print Assumptions C11_errors_are_ref_errors.
